@@ -347,3 +347,49 @@ func vAssertJSONEq(a, b []byte, what string) {
 }
 
 func vBound(ok bool, msg string) {}
+
+func vJSONMember(b []byte, name string) ([]byte, bool) {
+	dec := json.NewDecoder(bytes.NewReader(b))
+	tok, err := dec.Token()
+	if d, ok := tok.(json.Delim); err != nil || !ok || d != '{' {
+		return nil, false
+	}
+	var val []byte
+	found := false
+	for dec.More() {
+		kt, err := dec.Token()
+		if err != nil {
+			return nil, false
+		}
+		var raw json.RawMessage
+		if err := dec.Decode(&raw); err != nil {
+			return nil, false
+		}
+		if k, _ := kt.(string); k == name {
+			val, found = raw, true
+		}
+	}
+	return val, found
+}
+func vJSONKeys(b []byte) []string {
+	dec := json.NewDecoder(bytes.NewReader(b))
+	tok, err := dec.Token()
+	if d, ok := tok.(json.Delim); err != nil || !ok || d != '{' {
+		return nil
+	}
+	var keys []string
+	for dec.More() {
+		kt, err := dec.Token()
+		if err != nil {
+			return keys
+		}
+		var raw json.RawMessage
+		if err := dec.Decode(&raw); err != nil {
+			return keys
+		}
+		k, _ := kt.(string)
+		keys = append(keys, k)
+	}
+	return keys
+}
+func vMapOrder(symbolic bool) {}
